@@ -821,7 +821,8 @@ class map_async(Stream):
                 results = self._emit(result, metadata=metadata)
                 if results:
                     await asyncio.gather(*results)
-            self._release_refs(metadata)
+                # only an element that was processed may count as done
+                self._release_refs(metadata)
 
     async def _wait_for_work_slot(self):
         while self.work_queue.full():
